@@ -665,7 +665,7 @@ func (w *c19W) cnt(k string, n int64) { w.counts[k] += n }
 
 // par runs fn(w,i) for i in [0,n) on h.workers goroutines, then flushes.
 func (h *c19H) par(phase string, n int, fn func(w *c19W, i int)) {
-	t0 := time.Now()
+	t0, c0 := time.Now(), c19CPU()
 	var next atomic.Int64
 	var wg sync.WaitGroup
 	nw := min(h.workers, max(n, 1))
@@ -700,6 +700,7 @@ func (h *c19H) par(phase string, n int, fn func(w *c19W, i int)) {
 	wg.Wait()
 	h.mu.Lock()
 	h.counts["phase_ms:"+phase] += time.Since(t0).Milliseconds()
+	h.counts["phase_cpu_ms:"+phase] += (c19CPU() - c0).Milliseconds()
 	h.mu.Unlock()
 }
 
@@ -1756,7 +1757,7 @@ func c19Crafts(M int64, thorough bool) []c19Craft {
 
 // phaseCrafts runs sequentially: TotalAlloc is process-wide.
 func (h *c19H) phaseCrafts(crafts []c19Craft) {
-	t0 := time.Now()
+	t0, c0 := time.Now(), c19CPU()
 	w := &c19W{h: h, counts: map[string]int64{}, outcome: map[string]int64{}, batches: map[string]*c19Batch{}}
 	bound := uint64(4*maxDecompressedSize + 64<<20)
 	var maxDelta uint64
@@ -1831,6 +1832,7 @@ func (h *c19H) phaseCrafts(crafts []c19Craft) {
 	}
 	h.counts["crafted_inputs"] = int64(len(crafts))
 	h.counts["phase_ms:crafts"] = time.Since(t0).Milliseconds()
+	h.counts["phase_cpu_ms:crafts"] = (c19CPU() - c0).Milliseconds()
 	h.mu.Unlock()
 	h.r.Set("alloc_max_totalalloc_delta_bytes", maxDelta)
 	h.r.Set("alloc_max_delta_craft", maxName)
